@@ -87,6 +87,8 @@ def check(run, M, tier):
                 return tok
             st.events.append(("set_state", args[0] if args else None, call))
             return NONE
+        if tgt[0] == "ext" and tgt[1].startswith("numpy.random."):
+            st.events.append(("draw", tgt[1], call))     # consumes / reseeds numpy's global stream
         return None
     vn = VN(M, f, call_hook=hook, loop_hook=iter_once_while, real={"accel", "tol", "actual_accel"})
     outs = vn.run(f.body, State())
@@ -122,6 +124,12 @@ def check(run, M, tier):
         # B3
         gets = [e for e in o.events if e[0] == "get_state"]
         sets = [e for e in o.events if e[0] == "set_state"]
+        for e in [e for e in o.events if e[0] == "draw"]:
+            i = o.events.index(e)
+            inside = any(o.events.index(g) < i for g in gets) and any(o.events.index(z) > i and gets and z[1] == gets[-1][1] for z in sets)
+            run.check(inside, "B3", "poisson draw[%s]" % cond_text(o.conds)[:40], f.loc(e[2]), "inside the saved/restored bracket",
+                      "poisson calls %s (`%s`) outside the get_state()/set_state() bracket on the returning path [%s]: numpy's global random stream is left "
+                      "advanced for the caller" % (e[1], unparse(e[2]), cond_text(o.conds)[:100]), stmt="B3:draw:" + unparse(e[2]))
         if gets:
             ok = len(sets) >= 1 and sets[-1][1] == gets[-1][1] and o.events.index(sets[-1]) > o.events.index(gets[-1])
             run.check(ok, "B3", "poisson RNG pairing[%s]" % cond_text(o.conds)[:40], f.loc(), "set_state(saved state) after get_state on this returning path",
